@@ -1086,11 +1086,11 @@ where
                     if self.peek() == Some(0x26 /* & */) {
                         return error("Unexpected character in class set intersection");
                     }
-                    result.union_operand(first.clone());
+                    result.union_operand(self.fold_class_set_operand(first.clone()));
                     ClassSetOperator::Intersection
                 } else {
                     // A single '&' is an ordinary class set character: part of a union.
-                    result.union_operand(first.clone());
+                    result.union_operand(self.fold_class_set_operand(first.clone()));
                     ClassSetOperator::Union
                 }
             }
@@ -1098,7 +1098,7 @@ where
                 self.consume('-');
                 if self.peek() == Some(0x2D /* - */) {
                     self.consume('-');
-                    result.union_operand(first.clone());
+                    result.union_operand(self.fold_class_set_operand(first.clone()));
                     ClassSetOperator::Subtraction
                 } else {
                     match first {
@@ -1121,7 +1121,7 @@ where
                 }
             }
             Some(_) => {
-                result.union_operand(first.clone());
+                result.union_operand(self.fold_class_set_operand(first.clone()));
                 ClassSetOperator::Union
             }
             None => {
@@ -1159,7 +1159,7 @@ where
                             }
                         };
                     } else {
-                        result.union_operand(operand);
+                        result.union_operand(self.fold_class_set_operand(operand));
                     }
                 }
             }
@@ -1167,7 +1167,7 @@ where
             ClassSetOperator::Intersection => {
                 loop {
                     let operand = self.consume_class_set_operand()?;
-                    result.intersect_operand(operand);
+                    result.intersect_operand(self.fold_class_set_operand(operand));
                     match self.next() {
                         Some(0x5D /* ] */) => return Ok(result),
                         Some(0x26 /* & */) => {}
@@ -1186,7 +1186,7 @@ where
             ClassSetOperator::Subtraction => {
                 loop {
                     let operand = self.consume_class_set_operand()?;
-                    result.subtract_operand(operand);
+                    result.subtract_operand(self.fold_class_set_operand(operand));
                     match self.next() {
                         Some(0x5D /* ] */) => return Ok(result),
                         Some(0x2D /* - */) => {}
@@ -1199,6 +1199,47 @@ where
                 }
             }
         }
+    }
+
+    /// With the `i` flag the class set operations act on case-folded sets: before an
+    /// operand takes part in a union, intersection or subtraction, close its code points
+    /// under case folding and fold its strings, so that e.g. /[a--A]/vi is empty.
+    fn fold_class_set_operand(&self, operand: ClassSetOperand) -> ClassSetOperand {
+        use ClassSetOperand::*;
+        if !self.flags.icase {
+            return operand;
+        }
+        match operand {
+            ClassSetCharacter(c) => {
+                let mut cps = CodePointSet::new();
+                cps.add_one(c);
+                CharacterClassEscape(unicode::add_icase_code_points(cps))
+            }
+            CharacterClassEscape(cps) => CharacterClassEscape(unicode::add_icase_code_points(cps)),
+            Class(mut class) => {
+                class.codepoints = unicode::add_icase_code_points(class.codepoints);
+                let mut folded = ClassSetAlternativeStrings::new();
+                for string in class.alternatives {
+                    let string: Box<[CodePoint]> = string.iter().map(|&c| unicode::fold(c)).collect();
+                    if !folded.0.contains(&string) {
+                        folded.0.push(string);
+                    }
+                }
+                class.alternatives = folded;
+                Class(class)
+            }
+        }
+    }
+
+    /// The code points of \d, \s, \w or their complements as a class set operand. With the `i`
+    /// flag the complement is taken of the case-closed set (\W must not contain characters
+    /// which fold to word characters).
+    fn class_set_escape(&self, ct: CharacterClassType, positive: bool) -> CodePointSet {
+        let mut cps = codepoints_from_class_positive(ct);
+        if self.flags.icase {
+            cps = unicode::add_icase_code_points(cps);
+        }
+        if positive { cps } else { cps.inverted() }
     }
 
     fn consume_class_set_operand(&mut self) -> Result<ClassSetOperand, Error> {
@@ -1221,6 +1262,10 @@ where
                     // It is a Syntax Error if MayContainStrings of the ClassContents is true.
                     if result.may_contain_strings {
                         return error("Negated class set may contain strings");
+                    }
+                    // The complement is taken of the case-folded set.
+                    if self.flags.icase {
+                        result.codepoints = unicode::add_icase_code_points(result.codepoints);
                     }
                     result.codepoints = result.codepoints.inverted();
                 }
@@ -1273,32 +1318,32 @@ where
                     // CharacterClassEscape :: d
                     0x64 /* d */ => {
                         self.consume('d');
-                        Ok(CharacterClassEscape(codepoints_from_class(CharacterClassType::Digits, true)))
+                        Ok(CharacterClassEscape(self.class_set_escape(CharacterClassType::Digits, true)))
                     }
                     // CharacterClassEscape :: D
                     0x44 /* D */ => {
                         self.consume('D');
-                        Ok(CharacterClassEscape(codepoints_from_class(CharacterClassType::Digits, false)))
+                        Ok(CharacterClassEscape(self.class_set_escape(CharacterClassType::Digits, false)))
                     }
                     // CharacterClassEscape :: s
                     0x73 /* s */ => {
                         self.consume('s');
-                        Ok(CharacterClassEscape(codepoints_from_class(CharacterClassType::Spaces, true)))
+                        Ok(CharacterClassEscape(self.class_set_escape(CharacterClassType::Spaces, true)))
                     }
                     // CharacterClassEscape :: S
                     0x53 /* S */ => {
                         self.consume('S');
-                        Ok(CharacterClassEscape(codepoints_from_class(CharacterClassType::Spaces, false)))
+                        Ok(CharacterClassEscape(self.class_set_escape(CharacterClassType::Spaces, false)))
                     }
                     // CharacterClassEscape :: w
                     0x77 /* w */ => {
                         self.consume('w');
-                        Ok(CharacterClassEscape(codepoints_from_class(CharacterClassType::Words, true)))
+                        Ok(CharacterClassEscape(self.class_set_escape(CharacterClassType::Words, true)))
                     }
                     // CharacterClassEscape :: W
                     0x57 /* W */ => {
                         self.consume('W');
-                        Ok(CharacterClassEscape(codepoints_from_class(CharacterClassType::Words, false)))
+                        Ok(CharacterClassEscape(self.class_set_escape(CharacterClassType::Words, false)))
                     }
                     // CharacterClassEscape :: [+UnicodeMode] p{ UnicodePropertyValueExpression }
                     0x70 /* p */ => {
@@ -1319,9 +1364,12 @@ where
                         self.consume('P');
                         match self.try_consume_unicode_property_escape()? {
                             PropertyEscapeKind::CharacterClass(s) => {
-                                Ok(CharacterClassEscape(CodePointSet::from_sorted_disjoint_intervals(
-                                    s.to_vec(),
-                                ).inverted()))
+                                let mut cps = CodePointSet::from_sorted_disjoint_intervals(s.to_vec());
+                                // The complement is taken of the case-folded set.
+                                if self.flags.icase {
+                                    cps = unicode::add_icase_code_points(cps);
+                                }
+                                Ok(CharacterClassEscape(cps.inverted()))
                             }
                             PropertyEscapeKind::StringSet(_) => error("Invalid character escape"),
                         }
